@@ -143,33 +143,33 @@ func main() {
 	}
 	// 2. random trees, plain stream
 	g := r.Rng
-	n := r.N(24, 360)
+	n := r.N(24, 300)
 	for i := 0; i < n; i++ {
 		runScenario("random", false, g.U64(), 8+g.Intn(21))
 	}
 	// 3. random trees with the allocator wired + defrag between deliveries
-	n = r.N(4, 50)
+	n = r.N(4, 44)
 	for i := 0; i < n; i++ {
 		runScenario("random", true, g.U64(), 8+g.Intn(16))
 	}
 	// 4. random trees whose blocks carry two different difficulty bits (heavier-but-not-taller branches)
-	n = r.N(6, 120)
+	n = r.N(6, 100)
 	for i := 0; i < n; i++ {
 		runScenario("random-mixed-bits", false, g.U64(), 8+g.Intn(21))
 	}
 
 	// 5. sibling-order stream: parents with 3..5 children, an earlier sibling deleted as invalid-when-connected, ties among the rest
-	n = r.N(10, 100)
+	n = r.N(10, 90)
 	for i := 0; i < n; i++ {
 		runScenario("siblings", false, g.U64(), 3+g.Intn(3))
 	}
 
 	// 6. header-first delivery (the client's path): the random trees again, headers running ahead of the data
-	n = r.N(8, 100)
+	n = r.N(8, 80)
 	for i := 0; i < n; i++ {
 		runScenario("random-headers", false, g.U64(), 8+g.Intn(21))
 	}
-	n = r.N(2, 20)
+	n = r.N(2, 16)
 	for i := 0; i < n; i++ {
 		runScenario("random-headers-mixed-bits", false, g.U64(), 8+g.Intn(21))
 	}
